@@ -227,6 +227,27 @@ pub fn byte_faults(bytes: &[u8], rng: &mut Rng, budget_random: usize, thin: usiz
             from = e;
         }
     }
+    // 6b. quotes: every quote of the header removed / replaced; an opening quote put in front of every value
+    {
+        let mut qi = 0;
+        for o in 0..d.min(bytes.len()) {
+            if bytes[o] == b'"' {
+                qi += 1;
+                out.push(Fault { class: "quote-removed", section: section_of(bytes, o), descr: format!("header quote #{} removed", qi), bytes: splice(bytes, o, o + 1, b"") });
+                out.push(Fault { class: "quote-replaced", section: section_of(bytes, o), descr: format!("header quote #{} -> x", qi), bytes: splice(bytes, o, o + 1, b"x") });
+            }
+        }
+        for (li, (a, b)) in header_lines(bytes).iter().enumerate() {
+            if thin > 1 && li % thin != 0 {
+                continue;
+            }
+            if let Some(c) = bytes[*a..*b].iter().position(|c| *c == b':') {
+                let at = a + c + 1;
+                out.push(Fault { class: "quote-inserted", section: section_of(bytes, at), descr: format!("opening quote inserted in line {}", li), bytes: splice(bytes, at, at, b"\"") });
+                out.push(Fault { class: "quote-inserted", section: section_of(bytes, at), descr: format!("quote inserted before the key of line {}", li), bytes: splice(bytes, *a, *a, b"\"") });
+            }
+        }
+    }
     // 9. non-UTF-8 / odd bytes in the header
     for _ in 0..(budget_random / 4).max(4) {
         let o = rng.below(d.max(1));
